@@ -192,6 +192,28 @@ PROPS["C10"] = {
     "assumptions": ["exotic modules are only exercised by empty sessions (the listing model has no notion of uncovered or uninitialized bytes)"],
 }
 
+PROPS["C11"] = {
+    "engine": "rwsim",
+    "level": "exploration",
+    "quick_runs": 1500,
+    "thorough_runs": 30000,
+    "quick_wall": 300,
+    "thorough_wall": 2400,
+    "params": {"k": 4, "insfn_p": 0.05},
+    "thorough_params": {"k": 8},
+    "rule": "each seeded scenario is executed under K schedules (quick K=4, thorough K=8): fresh UUID stream, fresh node-hash salt "
+    "(= iteration order of every set/dict of gtirb nodes), another PYTHONHASHSEED (helper interpreters), and a permuted "
+    "registration order of the modifications that target different blocks; the UUID-free canonical dumps (block boundaries, edge "
+    "multiset, temporary-label names, aux data, addresses) must be identical; distinct = (module, sessions) digest; non-trivial "
+    "= at least one modification registered",
+    "interleaving_measure": "distinct schedules sigma = (uuid seed, salt, PYTHONHASHSEED, permutation) under which scenarios were executed",
+    "real_vs_stub": RW_REAL,
+    "assumptions": [
+        "kept fixed under permutation: the relative order of modifications inside one block, of scope-based registrations, register_insert_function and get_or_insert_extern_symbol calls",
+        "set iteration order is driven through gtirb.node.Node.__hash__ (salted hash of the UUID) instead of memory addresses; identity equality is untouched",
+    ],
+}
+
 # (moved below)
 # engines built separately contribute their own entries
 import importlib as _il
